@@ -10,16 +10,19 @@
   Shape of the refinement theorems (`abs_*`): on a store that realises the lists (given in decomposed form:
   the lists the call talks about first, `rest` arbitrary; `Realises.perm` makes the order irrelevant) the C
   function's model succeeds and the new store realises the lists changed by the forest operation.  Each of
-  them therefore also shows that `WF` is preserved (`wf_preserved_partial`).
+  them therefore also shows that `WF` is preserved (`wf_preserved`).
 
   Proved here: after, before, add/insert by position (incl. the position search of gnode_pos.c and the first
-  child of a childless parent), unlink, clear, destroy (incl. refusal), node/tree/list clone; the link
+  child of a childless parent) and by name (the search loops of node_locate.c, `abs_locate`), unlink, clear,
+  destroy (incl. refusal), node/tree/list clone, move/merge (`abs_move`: mpt_node_move incl. the re-parenting of
+  handed-over children, the recursion into namesakes and the update of the caller's list reference); the link
   invariants in pointer terms; release exactly once; a clone realises the relabelled source (same shape, names
   and values at every depth); the walk the drivers print is the abstraction.
-  Kept as `…_statement` only (exercised by the correspondence run, not proved): insert/add by name (the
-  search loops of node_locate.c) and move.
+  `abs_ops_statement` restates add/insert/clone/move through the spec state `Forest.St` (which also searches the
+  operands in `tops`); proved are the decomposed forms, the operand search of `St` itself is exercised by the
+  correspondence run only.  Not modelled: gnode_relink / gnode_swap (not in the property's file list).
 -/
-import MptModel.Lemmas.NodesDeepClone
+import MptModel.Lemmas.NodesMove
 namespace Mpt.C14
 open Mpt Mpt.Nodes Mpt.Forest
 
@@ -149,6 +152,50 @@ example : ∃ s', exStore.insert 0 (-1) 2 false = .ok s' ∧
     abs_insert (rest := []) (parent := 0) (tp := .node 0 (some "a") none [.node 1 (some "b") none []]) (-1) exRealises
       (by simp [find?]) (by simp [Tree.children])
 
+/-- `mpt_node_locate(first, pos, name)`: the element `locIdx` names — pos > 0: the pos-th namesake from `first`
+    on, pos < 0: the |pos|-th namesake before `first` counted backwards, 0: the last element if it is a namesake -/
+theorem abs_locate {s : Store} {first f : Nat} {l0 L : Forest} {rest : List Forest} {par : Option Nat}
+    (key : Name) (pos : Int) (hR : Realises s (l0 :: rest)) (hat : SibsAt first l0 L f par) :
+    s.locate (some first) pos key = .ok ((locIdx L f key pos).bind fun i => (L[i]?).map Tree.id) :=
+  locate_refines key pos hR hat
+
+example : exStore.locate (some 1) 1 (some "b") = .ok (some 1) := by
+  have hk : locIdx [Tree.node 1 (some "b") none []] 0 (some "b") 1 = some 0 := by decide
+  simpa [Tree.children, hk, Tree.id] using
+    abs_locate (first := 1) (l0 := [.node 0 (some "a") none [.node 1 (some "b") none []]]) (rest := [[.node 2 (some "a") (some "v") []]])
+      (some "b") 1 (exRealises.perm (List.Perm.swap _ _ _))
+      (SibsAt.kids (q := 0) (tq := .node 0 (some "a") none [.node 1 (some "b") none []]) (j := 0) (by simp [find?]) (by rfl))
+
+/-- `mpt_node_add(first, pos, x)` by name (the namesakes of `x` are searched with node_locate.c): `x` is placed at
+    the index `nameIdx` names (behind the last / in front of the pos-th namesake, …); nothing changes where
+    `nameIdx` is `none` -/
+theorem abs_add_by_name {s : Store} {first x f : Nat} {n' : Name} {v' : Val} {cs' l0 L : Forest} {rest : List Forest}
+    {par : Option Nat} (pos : Int)
+    (hR : Realises s ([.node x n' v' cs'] :: l0 :: rest)) (hat : SibsAt first l0 L f par) :
+    ∃ s', s.add first pos x true = .ok s' ∧
+      Realises s' (match nameIdx L f n' pos with
+        | some k => applyAt par (fun L' => L'.insertIdx k (.node x n' v' cs')) l0 :: rest
+        | none => [.node x n' v' cs'] :: l0 :: rest) :=
+  add_name_refines pos hR hat
+
+/-- `mpt_node_insert(parent, pos, x)` by name, parent with children -/
+theorem abs_insert_by_name {s : Store} {parent x : Nat} {n' : Name} {v' : Val} {cs' l0 : Forest} {rest : List Forest}
+    {tp : Tree} (pos : Int)
+    (hR : Realises s ([.node x n' v' cs'] :: l0 :: rest)) (hf : find? parent l0 = some tp) (hne : tp.children ≠ []) :
+    ∃ s', s.insert parent pos x true = .ok s' ∧
+      Realises s' (match nameIdx tp.children 0 n' pos with
+        | some k => modKids parent (fun L' => L'.insertIdx k (.node x n' v' cs')) l0 :: rest
+        | none => [.node x n' v' cs'] :: l0 :: rest) :=
+  insert_name_refines pos hR hf hne
+
+example : ∃ s', exStore.add 0 0 2 true = .ok s' ∧
+    Realises s' [[.node 0 (some "a") none [.node 1 (some "b") none []], .node 2 (some "a") (some "v") []]] := by
+  have h := abs_add_by_name (rest := []) (first := 0) (f := 0) (par := none)
+    (L := [.node 0 (some "a") none [.node 1 (some "b") none []]]) 0 exRealises (SibsAt.top (by rfl))
+  have hk : nameIdx [.node 0 (some "a") none [.node 1 (some "b") none []]] 0 (some "a") 0 = some 1 := by decide
+  rw [hk] at h
+  simpa [applyAt] using h
+
 /-- `mpt_node_unlink(x)`: `x` and everything below it leaves its sibling list and becomes a list of its own;
     the result is the old successor.  (For a detached root nothing is linked and nothing changes.) -/
 theorem abs_unlink {s : Store} {x j : Nat} {l0 L : Forest} {rest : List Forest} {par : Option Nat} {t : Tree}
@@ -166,6 +213,53 @@ example : ∃ s', exStore.unlink 1 = .ok (s', none) ∧
       (SibsAt.kids (q := 0) (tq := .node 0 (some "a") none [.node 1 (some "b") none []])
         (j := 0) (by simp [find?]) (by rfl))
       (by simp [Tree.children]) (by simp [applyAt, modKids])
+
+/-- `mpt_node_unlink(x)` of a node that is a list of its own: nothing changes -/
+theorem abs_unlink_lone {s : Store} {x : Nat} {n : Name} {v : Val} {cs : Forest} {rest : List Forest}
+    (hR : Realises s ([.node x n v cs] :: rest)) : s.unlink x = .ok (s, none) :=
+  unlink_lone hR
+
+example : exStore.unlink 2 = .ok (exStore, none) := abs_unlink_lone exRealises
+
+/-- `mpt_node_move(&from, to)`, `from` = `a` (the `ia`-th element of its sibling list `S`), `to` = `b` (the `d`-th
+    element of `D`), the two in different top-level structures: the list from `a` on is merged into `D` as
+    `Forest.merge` says — an element without namesake (searched from `b` on) moves to the end of `D` with everything
+    below it, an element with namesake stays (emptied) and its children are merged into the namesake's children
+    (handed over and re-parented when the namesake has none); the result is the number of moved nodes.
+    `slot` is where the caller keeps `from`: the child link of the parent (possible only when there is one) or a
+    variable; a source list that became empty disappears from the top-level lists. -/
+theorem abs_move {s : Store} {a b ia d : Nat} {lsrc ldst S D : Forest} {rest : List Forest} {ps pd : Option Nat}
+    {slot : Store.Slot}
+    (hR : Realises s (lsrc :: ldst :: rest)) (hsa : SibsAt a lsrc S ia ps) (hsb : SibsAt b ldst D d pd)
+    (hslot : ∀ p, slot = .kids p → ps = some p) :
+    ∃ s', s.move s.fuel slot (some a) b = .ok (s', (merge (S.drop ia) D d).2.2) ∧
+      Realises s' ((if (applyAt ps (fun _ => S.take ia ++ (merge (S.drop ia) D d).1) lsrc).isEmpty then []
+          else [applyAt ps (fun _ => S.take ia ++ (merge (S.drop ia) D d).1) lsrc]) ++
+        applyAt pd (fun _ => (merge (S.drop ia) D d).2.1) ldst :: rest) :=
+  move_refines hR hsa hsb hslot
+
+/-- moving the detached `2:a=v` onto `0:a(1:b)`: namesake, no children on the source side — nothing moves -/
+example : ∃ s', exStore.move exStore.fuel .loc (some 2) 0 = .ok (s', 0) ∧ Realises s' exTops := by
+  have h := abs_move (slot := .loc) (rest := []) exRealises (SibsAt.top (p := 2) (j := 0) (by rfl))
+    (SibsAt.top (p := 0) (j := 0) (by rfl)) (by simp)
+  have hm : merge ([Tree.node 2 (some "a") (some "v") []].drop 0) [.node 0 (some "a") none [.node 1 (some "b") none []]] 0 =
+      ([.node 2 (some "a") (some "v") []], [.node 0 (some "a") none [.node 1 (some "b") none []]], 0) := by
+    simp [merge, findName, namesakes, midx, Tree.name]
+  simp only [hm] at h
+  simpa [applyAt, exTops] using h
+
+/-- moving the child `1:b` of `0:a` (list reference = the parent's child link) to the list of `2:a`: no namesake,
+    the node moves, the parent's child link is cleared -/
+example : ∃ s', exStore.move exStore.fuel (.kids 0) (some 1) 2 = .ok (s', 1) ∧
+    Realises s' [[.node 0 (some "a") none []], [.node 2 (some "a") (some "v") [], .node 1 (some "b") none []]] := by
+  have h := abs_move (slot := .kids 0) (rest := []) (exRealises.perm (List.Perm.swap _ _ _))
+    (SibsAt.kids (p := 1) (q := 0) (tq := .node 0 (some "a") none [.node 1 (some "b") none []]) (j := 0) (by simp [find?]) (by rfl))
+    (SibsAt.top (p := 2) (j := 0) (by rfl)) (by simp)
+  have hm : merge ([Tree.node 1 (some "b") none []].drop 0) [.node 2 (some "a") (some "v") []] 0 =
+      ([], [.node 2 (some "a") (some "v") [], .node 1 (some "b") none []], 1) := by
+    simp [merge, findName, namesakes, midx, Tree.name]
+  simp only [Tree.children, hm] at h
+  simpa [applyAt, modKids] using h
 
 /-- `mpt_node_clear(x)`: the children of `x` are gone, everything else keeps its place -/
 theorem abs_clear {s : Store} {x : Nat} {l0 : Forest} {tx : Tree} {rest : List Forest} {fuel : Nat}
@@ -227,34 +321,21 @@ theorem fuel_suffices {s : Store} {tops : List Forest} (h : Realises s tops) {l 
 
 /-! ### wf_preserved -/
 
-/-- the full statement: every operation of the property keeps the store well-formed -/
-def wf_preserved_statement : Prop :=
-  ∀ (s : Store), WF s →
-    -- after / before / insert / add with a detached root `x` outside the structure of `p`
-    (∀ tops p x t l0 rest L j par (pos : Int) (byName : Bool), Realises s tops → tops.Perm ([t] :: l0 :: rest) → t.id = x →
-        SibsAt p l0 L j par →
-        (∀ s', s.gnodeAfter (some p) x = .ok s' → WF s') ∧ (∀ s', s.gnodeBefore (some p) x = .ok s' → WF s') ∧
-        (∃ s', s.add p pos x byName = .ok s' ∧ WF s') ∧ (∃ s', s.insert p pos x byName = .ok s' ∧ WF s')) ∧
-    -- unlink / clear / destroy / the three clones of any live node
-    (∀ x xn, s.Live x xn →
-        (∃ r, s.unlink x = .ok r ∧ WF r.1) ∧ (∃ s', s.clear s.fuel x = .ok s' ∧ WF s') ∧
-        (∃ r, s.destroy s.fuel x = .ok r ∧ WF r.1) ∧ (∃ r, s.nodeClone x = .ok r ∧ WF r.1) ∧
-        (∃ r, s.treeClone x = .ok r ∧ WF r.1) ∧ (∃ r, s.listClone s.fuel (some x) = .ok r ∧ WF r.1))
-
-/-- proved part: after, before, add/insert by position, unlink, clear, destroy, node/tree/list clone keep the
-    store well-formed.  Missing w.r.t. `wf_preserved_statement`: insert/add by name. -/
-theorem wf_preserved_partial {s : Store} {tops : List Forest} (hR : Realises s tops) :
+/-- Every operation of the property keeps the store well-formed (and succeeds), in every situation the C
+    preconditions allow: `x` a detached root outside the structure of the target for after/before/add/insert
+    (by position and by name), any node for unlink/clear/clone, a detached root for destroy (a linked node is
+    refused and the store unchanged, `destroy_linked_refused`), two nodes of different structures for move. -/
+theorem wf_preserved {s : Store} {tops : List Forest} (hR : Realises s tops) :
     -- after / before
     (∀ p x j n' v' cs' l0 L rest par, tops.Perm ([.node x n' v' cs'] :: l0 :: rest) → SibsAt p l0 L j par →
         (∃ s', s.gnodeAfter (some p) x = .ok s' ∧ WF s') ∧ (∃ s', s.gnodeBefore (some p) x = .ok s' ∧ WF s')) ∧
-    -- add / insert by position
-    (∀ first x f n' v' cs' l0 L rest par (pos : Int), tops.Perm ([.node x n' v' cs'] :: l0 :: rest) → SibsAt first l0 L f par →
-        ∃ s', s.add first pos x false = .ok s' ∧ WF s') ∧
-    (∀ parent x n' v' cs' l0 rest tp (pos : Int), tops.Perm ([.node x n' v' cs'] :: l0 :: rest) → find? parent l0 = some tp →
-        ∃ s', s.insert parent pos x false = .ok s' ∧ WF s') ∧
-    -- unlink of a node with siblings or a parent
-    (∀ x j l0 L rest par t, tops.Perm (l0 :: rest) → SibsAt x l0 L j par → L[j]? = some t →
-        applyAt par (fun L => L.eraseIdx j) l0 ≠ [] → ∃ r, s.unlink x = .ok r ∧ WF r.1) ∧
+    -- add / insert by position and by name
+    (∀ first x f n' v' cs' l0 L rest par (pos : Int) (byName : Bool), tops.Perm ([.node x n' v' cs'] :: l0 :: rest) →
+        SibsAt first l0 L f par → ∃ s', s.add first pos x byName = .ok s' ∧ WF s') ∧
+    (∀ parent x n' v' cs' l0 rest tp (pos : Int) (byName : Bool), tops.Perm ([.node x n' v' cs'] :: l0 :: rest) →
+        find? parent l0 = some tp → ∃ s', s.insert parent pos x byName = .ok s' ∧ WF s') ∧
+    -- unlink of any node
+    (∀ x j l0 L rest par, tops.Perm (l0 :: rest) → SibsAt x l0 L j par → ∃ r, s.unlink x = .ok r ∧ WF r.1) ∧
     -- clear of any node
     (∀ x l0 tx rest, tops.Perm (l0 :: rest) → find? x l0 = some tx → ∃ s', s.clear s.fuel x = .ok s' ∧ WF s') ∧
     -- destroy of a detached root
@@ -262,25 +343,69 @@ theorem wf_preserved_partial {s : Store} {tops : List Forest} (hR : Realises s t
     -- clones
     (∀ x xn, s.Live x xn → ∃ r, s.nodeClone x = .ok r ∧ WF r.1) ∧
     (∀ x n v cs l0 rest, tops.Perm (l0 :: rest) → find? x l0 = some (.node x n v cs) → ∃ r, s.treeClone x = .ok r ∧ WF r.1) ∧
-    (∀ x j l0 L rest par, tops.Perm (l0 :: rest) → SibsAt x l0 L j par → ∃ r, s.listClone s.fuel (some x) = .ok r ∧ WF r.1) := by
-  refine ⟨?_, ?_, ?_, ?_, ?_, ?_, ?_, ?_, ?_⟩
+    (∀ x j l0 L rest par, tops.Perm (l0 :: rest) → SibsAt x l0 L j par → ∃ r, s.listClone s.fuel (some x) = .ok r ∧ WF r.1) ∧
+    -- move / merge
+    (∀ a b ia d lsrc ldst S D rest ps pd slot, tops.Perm (lsrc :: ldst :: rest) → SibsAt a lsrc S ia ps →
+        SibsAt b ldst D d pd → (∀ p, slot = Store.Slot.kids p → ps = some p) →
+        ∃ r, s.move s.fuel slot (some a) b = .ok r ∧ WF r.1) := by
+  refine ⟨?_, ?_, ?_, ?_, ?_, ?_, ?_, ?_, ?_, ?_⟩
   · intro p x j n' v' cs' l0 L rest par hp hat
     have hR' := hR.perm hp.symm
     obtain ⟨s1, h1, r1⟩ := after_refines hR' hat
     obtain ⟨s2, h2, r2⟩ := before_refines hR' hat
     exact ⟨⟨s1, h1, _, r1⟩, ⟨s2, h2, _, r2⟩⟩
-  · intro first x f n' v' cs' l0 L rest par pos hp hat
-    obtain ⟨s1, h1, r1⟩ := add_refines pos (hR.perm hp.symm) hat
-    exact ⟨s1, h1, _, r1⟩
-  · intro parent x n' v' cs' l0 rest tp pos hp hf
+  · intro first x f n' v' cs' l0 L rest par pos byName hp hat
+    cases byName with
+    | false =>
+      obtain ⟨s1, h1, r1⟩ := add_refines pos (hR.perm hp.symm) hat
+      exact ⟨s1, h1, _, r1⟩
+    | true =>
+      obtain ⟨s1, h1, r1⟩ := add_name_refines pos (hR.perm hp.symm) hat
+      exact ⟨s1, h1, _, r1⟩
+  · intro parent x n' v' cs' l0 rest tp pos byName hp hf
     by_cases hc : tp.children = []
-    · obtain ⟨s1, h1, r1⟩ := insert_empty_refines pos false (hR.perm hp.symm) hf hc
+    · obtain ⟨s1, h1, r1⟩ := insert_empty_refines pos byName (hR.perm hp.symm) hf hc
       exact ⟨s1, h1, _, r1⟩
-    · obtain ⟨s1, h1, r1⟩ := insert_refines pos (hR.perm hp.symm) hf hc
-      exact ⟨s1, h1, _, r1⟩
-  · intro x j l0 L rest par t hp hat ht hne
-    obtain ⟨s1, h1, r1⟩ := unlink_refines (hR.perm hp.symm) hat ht hne
-    exact ⟨_, h1, _, r1⟩
+    · cases byName with
+      | false =>
+        obtain ⟨s1, h1, r1⟩ := insert_refines pos (hR.perm hp.symm) hf hc
+        exact ⟨s1, h1, _, r1⟩
+      | true =>
+        obtain ⟨s1, h1, r1⟩ := insert_name_refines pos (hR.perm hp.symm) hf hc
+        exact ⟨s1, h1, _, r1⟩
+  · intro x j l0 L rest par hp hat
+    have hR' := hR.perm hp.symm
+    obtain ⟨t, ht, htid⟩ := getElem?_of_idx? hat.idx
+    by_cases hne : applyAt par (fun L => L.eraseIdx j) l0 = []
+    · -- `x` is a list of its own
+      have hl0 := (hR'.real l0 (by simp)).1
+      cases hat with
+      | @kids q tq _ hf hi =>
+        exfalso
+        have hh := headId_modKids (q := q) (g := fun L => L.eraseIdx j) l0
+        simp only [applyAt] at hne
+        rw [hne] at hh
+        cases l0 with
+        | nil => exact hl0 rfl
+        | cons t0 ts => cases t0; simp [headId] at hh
+      | top hi =>
+        simp only [applyAt] at hne
+        have hlen : l0.length = 1 := by
+          have h1 := (List.getElem?_eq_some_iff.1 ht).1
+          have h2 : (l0.eraseIdx j).length = 0 := by rw [hne]; rfl
+          rw [List.length_eraseIdx] at h2
+          split at h2 <;> omega
+        have hj : j = 0 := by have := (List.getElem?_eq_some_iff.1 ht).1; omega
+        subst hj
+        obtain ⟨t0, hl⟩ : ∃ t0, l0 = [t0] := List.length_eq_one_iff.1 hlen
+        subst hl
+        simp at ht; subst ht
+        cases t0 with
+        | node i n v cs =>
+          simp only [Tree.id] at htid; subst htid
+          exact ⟨_, unlink_lone hR', _, hR'⟩
+    · obtain ⟨s1, h1, r1⟩ := unlink_refines hR' hat ht hne
+      exact ⟨_, h1, _, r1⟩
   · intro x l0 tx rest hp hfx
     have hR' := hR.perm hp.symm
     have hfu := fuel_suffices hR' (l := l0) (by simp)
@@ -310,17 +435,17 @@ theorem wf_preserved_partial {s : Store} {tops : List Forest} (hR : Realises s t
   · intro x j l0 L rest par hp hat
     obtain ⟨s1, h1, r1⟩ := listClone_refines (hR.perm hp.symm) hat
     exact ⟨_, h1, _, r1⟩
+  · intro a b ia d lsrc ldst S D rest ps pd slot hp hsa hsb hslot
+    obtain ⟨s1, h1, r1⟩ := move_refines (hR.perm hp.symm) hsa hsb hslot
+    exact ⟨_, h1, _, r1⟩
 
 example : ∃ s', exStore.destroy exStore.fuel 2 = .ok (s', true) ∧ WF s' :=
-  (wf_preserved_partial exRealises).2.2.2.2.2.1 2 _ _ _ _ (List.Perm.refl _)
+  (wf_preserved exRealises).2.2.2.2.2.1 2 _ _ _ _ (List.Perm.refl _)
 
 /-! ### abs_ops (summary statement) -/
 
-/-- the full statement of `abs_ops` in terms of the spec state `Forest.St` (which also does the searching for
-    the operands): insert/add by position and by name, tree/list clone and move act on the abstraction as
-    `Forest.St.add/insert/clone/move` do.  Proved above for the position variants in decomposed form
-    (`abs_add`, `abs_insert`, `abs_insert_first_child`) and the clones (`abs_tree_clone`, `abs_list_clone`);
-    by name and move are checked by the correspondence run only. -/
+/-- the statement of `abs_ops` through the spec state `Forest.St`, whose operations first search their operands in
+    `tops` (`sibsOf?`, `detached?`, `topOf?`, `find?`) and then change the lists like the decomposed theorems say -/
 def abs_ops_statement : Prop :=
   ∀ (s : Store) (sp : Forest.St), Realises s sp.tops → sp.next = s.nodes.length →
     (∀ p pos x byName sp', sp.add p pos x byName = some sp' → ∃ s', s.add p pos x byName = .ok s' ∧ Realises s' sp'.tops) ∧
@@ -328,6 +453,66 @@ def abs_ops_statement : Prop :=
     (∀ x sp', sp.clone x 1 = some sp' → ∃ r, s.treeClone x = .ok r ∧ Realises r.1 sp'.tops) ∧
     (∀ x sp', sp.clone x 2 = some sp' → ∃ r, s.listClone s.fuel (some x) = .ok r ∧ Realises r.1 sp'.tops) ∧
     (∀ a b sp' m, sp.move a b = some (sp', m) → ∃ slot r, s.move s.fuel slot (some a) b = .ok r ∧ Realises r.1 sp'.tops)
+
+/-- proved part of `abs_ops`: insert/add by position and by name, tree/list clone and move act on the abstraction
+    as the forest operations (`insertIdx` at `addIdx`/`nameIdx`, `relabel`, `merge`) say, for operands given in
+    located form (`SibsAt`/`find?` in a list of `tops`).  Missing w.r.t. `abs_ops_statement`: the operand search of
+    `Forest.St` is not connected to the located form (spec-internal; the correspondence run compares both). -/
+theorem abs_ops_partial {s : Store} {tops : List Forest} (hR : Realises s tops) :
+    -- add by position / by name
+    (∀ first x f n' v' cs' l0 L rest par (pos : Int), tops.Perm ([.node x n' v' cs'] :: l0 :: rest) → SibsAt first l0 L f par →
+      (∃ s', s.add first pos x false = .ok s' ∧
+        Realises s' (applyAt par (fun L' => L'.insertIdx (addIdx L.length f pos) (.node x n' v' cs')) l0 :: rest)) ∧
+      (∃ s', s.add first pos x true = .ok s' ∧
+        Realises s' (match nameIdx L f n' pos with
+          | some k => applyAt par (fun L' => L'.insertIdx k (.node x n' v' cs')) l0 :: rest
+          | none => [.node x n' v' cs'] :: l0 :: rest))) ∧
+    -- insert by position / by name
+    (∀ parent x n' v' cs' l0 rest tp (pos : Int), tops.Perm ([.node x n' v' cs'] :: l0 :: rest) → find? parent l0 = some tp →
+      tp.children ≠ [] →
+      (∃ s', s.insert parent pos x false = .ok s' ∧
+        Realises s' (modKids parent (fun L' => L'.insertIdx (addIdx tp.children.length 0 pos) (.node x n' v' cs')) l0 :: rest)) ∧
+      (∃ s', s.insert parent pos x true = .ok s' ∧
+        Realises s' (match nameIdx tp.children 0 n' pos with
+          | some k => modKids parent (fun L' => L'.insertIdx k (.node x n' v' cs')) l0 :: rest
+          | none => [.node x n' v' cs'] :: l0 :: rest))) ∧
+    (∀ parent x n' v' cs' l0 rest tp (pos : Int) (byName : Bool), tops.Perm ([.node x n' v' cs'] :: l0 :: rest) →
+      find? parent l0 = some tp → tp.children = [] →
+      ∃ s', s.insert parent pos x byName = .ok s' ∧ Realises s' (modKids parent (fun _ => [.node x n' v' cs']) l0 :: rest)) ∧
+    -- tree / list clone
+    (∀ x n v cs l0 rest, tops.Perm (l0 :: rest) → find? x l0 = some (.node x n v cs) →
+      ∃ s', s.treeClone x = .ok (s', s.nodes.length) ∧
+        Realises s' ((l0 :: rest) ++ [(relabel [.node x n v cs] s.nodes.length).1])) ∧
+    (∀ x j l0 L rest par, tops.Perm (l0 :: rest) → SibsAt x l0 L j par →
+      ∃ s', s.listClone s.fuel (some x) = .ok (s', some s.nodes.length) ∧
+        Realises s' ((l0 :: rest) ++ [(relabel (L.drop j) s.nodes.length).1])) ∧
+    -- move
+    (∀ a b ia d lsrc ldst S D rest ps pd slot, tops.Perm (lsrc :: ldst :: rest) → SibsAt a lsrc S ia ps →
+      SibsAt b ldst D d pd → (∀ p, slot = Store.Slot.kids p → ps = some p) →
+      ∃ s', s.move s.fuel slot (some a) b = .ok (s', (merge (S.drop ia) D d).2.2) ∧
+        Realises s' ((if (applyAt ps (fun _ => S.take ia ++ (merge (S.drop ia) D d).1) lsrc).isEmpty then []
+            else [applyAt ps (fun _ => S.take ia ++ (merge (S.drop ia) D d).1) lsrc]) ++
+          applyAt pd (fun _ => (merge (S.drop ia) D d).2.1) ldst :: rest)) := by
+  refine ⟨?_, ?_, ?_, ?_, ?_, ?_⟩
+  · intro first x f n' v' cs' l0 L rest par pos hp hat
+    exact ⟨add_refines pos (hR.perm hp.symm) hat, add_name_refines pos (hR.perm hp.symm) hat⟩
+  · intro parent x n' v' cs' l0 rest tp pos hp hf hc
+    exact ⟨insert_refines pos (hR.perm hp.symm) hf hc, insert_name_refines pos (hR.perm hp.symm) hf hc⟩
+  · intro parent x n' v' cs' l0 rest tp pos byName hp hf hc
+    exact insert_empty_refines pos byName (hR.perm hp.symm) hf hc
+  · intro x n v cs l0 rest hp hfx
+    exact treeClone_refines (hR.perm hp.symm) hfx
+  · intro x j l0 L rest par hp hat
+    exact listClone_refines (hR.perm hp.symm) hat
+  · intro a b ia d lsrc ldst S D rest ps pd slot hp hsa hsb hslot
+    exact move_refines (hR.perm hp.symm) hsa hsb hslot
+
+example : ∃ s', exStore.move exStore.fuel .loc (some 2) 0 = .ok (s', 0) ∧ WF s' := by
+  obtain ⟨s', h, r⟩ := (abs_ops_partial exRealises).2.2.2.2.2 2 0 0 0 _ _ _ _ [] none none .loc (List.Perm.refl _)
+    (SibsAt.top (p := 2) (j := 0) (by rfl)) (SibsAt.top (p := 0) (j := 0) (by rfl)) (by simp)
+  have hm : (merge ([Tree.node 2 (some "a") (some "v") []].drop 0) [.node 0 (some "a") none [.node 1 (some "b") none []]] 0).2.2 = 0 := by
+    simp [merge, findName, namesakes, midx, Tree.name]
+  exact ⟨s', by rw [h, hm], _, r⟩
 
 /-! ### released_once -/
 
